@@ -151,6 +151,12 @@ pub fn blocks(thorough: bool) -> Vec<Block> {
         b.push(Block::new(u_runs(), esc(&bases8), "{e, e+u} x 8 bases"));
         b.push(Block::new(u_kind_triples(), esc(&bases8), "{e, e+u} x 8 bases"));
     }
+    if thorough {
+        // the thorough space is a superset of the quick one: every quick block first, then the deeper ones
+        let mut all = blocks(false);
+        all.extend(b);
+        return all;
+    }
     b
 }
 
